@@ -352,6 +352,11 @@ func (a *genericAuthenticator) calculateCacheKey(ctx heimdall.Context, reference
 	digest.Write(a.e.Hash())
 	digest.Write(stringx.ToBytes(reference))
 
+	// a response is cached after it passed the checks according to the settings of this mechanism
+	// (session_lifespan). An authenticator configured otherwise, but making use of the same
+	// endpoint must not pick it up without doing these checks on its own
+	digest.Write(stringx.ToBytes(a.id))
+
 	// the payload sent to the endpoint is rendered from the template and the reference. So, instances
 	// using the same endpoint, but different payload templates must not share their entries
 	if a.payload != nil {
